@@ -7,6 +7,8 @@
 //!   `c10.strict S ORA`              `user_id::validate_strict`
 //!   `c10.spec.struct <kind> S ORA`  `struct'(s) || accepted(s)`  vs the Lean spec's `struct(s)`
 //!   `c10.spec.gram <kind> S ORA`    `gram'(s) && accepted(s)`    vs the Lean spec's `gram(s)`
+//!   `c10.spec.tight <kind> S ORA`   `struct'(s) && !bigport'(s) && accepted(s)` vs the Lean spec's
+//!                                   `struct(s) && !structBigPort(s)` (structure ⇒ accepted)
 //!   `c10.ctor.pwsn S S ORA`         `UserId::parse_with_server_name` (+ `_rc`, `_arc`)
 //!   `c10.ctor.key <kind> S S`       `KeyId::from_parts`
 //!   `c10.ctor.new <kind> S`         `UserId::new` / `RoomId::new` / `EventId::new` (T3 only)
@@ -820,13 +822,18 @@ pub fn run(req: &str) -> Outcome {
             let r = ruma_identifiers_validation::user_id::validate_strict(&s);
             Outcome::new(if r.is_ok() { "ok" } else { "err" })
         }
-        "c10.spec.struct" | "c10.spec.gram" => {
+        "c10.spec.struct" | "c10.spec.gram" | "c10.spec.tight" => {
             let (Some(kind), Some(s)) = (toks.get(1).and_then(|k| Kind::parse(k)), toks.get(2).and_then(|t| arg(t))) else {
                 return bad();
             };
             let acc = accepted(kind, &s);
             let v = if toks[0] == "c10.spec.struct" {
                 spec::structure(kind, s.as_bytes()) || acc
+            } else if toks[0] == "c10.spec.tight" {
+                if !spec::tight_applies(kind, s.as_bytes()) {
+                    return Outcome::new("na");
+                }
+                spec::structure(kind, s.as_bytes()) && !spec::struct_big_port(kind, s.as_bytes()) && acc
             } else {
                 spec::grammar(kind, s.as_bytes()) && acc
             };
@@ -894,6 +901,7 @@ fn id_requests(kind: Kind, s: &str, src: &str, with_spec: bool, out: &mut Vec<Re
     if with_spec {
         out.push(Req::new(format!("c10.spec.struct {k} {} {ora}", stok(s)), format!("{k}-{src}.struct")));
         out.push(Req::new(format!("c10.spec.gram {k} {} {ora}", stok(s)), format!("{k}-{src}.gram")));
+        out.push(Req::new(format!("c10.spec.tight {k} {} {ora}", stok(s)), format!("{k}-{src}.tight")));
     }
     if kind == Kind::User {
         out.push(Req::new(format!("c10.strict {} {ora}", stok(s)), format!("{k}-{src}.strict")));
